@@ -150,10 +150,24 @@ func nameAbs(ctx *Ctx, v ssa.Value, d int) string {
 					return nameAbs(ctx, st[0], d+1)
 				}
 			}
+			// a field of a struct parameter spilled to a local (spec.name): resolve through the parameter object
+			if fa, ok := x.X.(*ssa.FieldAddr); ok {
+				if al, ok := fa.X.(*ssa.Alloc); ok {
+					if st := allocStores(al); len(st) == 1 {
+						if fv := structFieldValue(ctx, st[0], fa.Field); fv.v != nil {
+							return nameAbs(fv.ctx, fv.v, d+1)
+						}
+					}
+				}
+			}
 		}
 	case *ssa.Field:
 		if fieldName(x) == "pogreb.segment.name" {
 			return "SEGNAME"
+		}
+		// a field of a parameter object: the value the caller's composite literal stored in that field
+		if fv := structFieldValue(ctx, x.X, x.Field); fv.v != nil {
+			return nameAbs(fv.ctx, fv.v, d+1)
 		}
 	case *ssa.Parameter:
 		if ctx != nil && ctx.Parent != nil && ctx.Site != nil {
@@ -180,6 +194,56 @@ func nameAbs(ctx *Ctx, v ssa.Value, d int) string {
 		return "{" + strings.Join(parts, "|") + "}"
 	}
 	return "?"
+}
+
+type ctxVal struct {
+	ctx *Ctx
+	v   ssa.Value
+}
+
+// structFieldValue resolves field `field` of the struct value sv - a parameter (resolved to the caller's argument
+// through the call string) or a local composite literal - to the value stored into that field.
+func structFieldValue(ctx *Ctx, sv ssa.Value, field int) ctxVal {
+	for d := 0; d < 6; d++ {
+		sv = strip(sv)
+		switch x := sv.(type) {
+		case *ssa.Parameter:
+			if ctx == nil || ctx.Parent == nil || ctx.Site == nil {
+				return ctxVal{}
+			}
+			cc := callOf(ctx.Site)
+			idx := paramIndex(x)
+			if cc.IsInvoke() || idx < 0 || idx >= len(cc.Args) {
+				return ctxVal{}
+			}
+			sv, ctx = cc.Args[idx], ctx.Parent
+		case *ssa.UnOp:
+			al, ok := x.X.(*ssa.Alloc)
+			if x.Op != token.MUL || !ok || al.Referrers() == nil {
+				return ctxVal{}
+			}
+			for _, u := range *al.Referrers() {
+				fa, ok := u.(*ssa.FieldAddr)
+				if !ok || fa.Field != field || fa.Referrers() == nil {
+					continue
+				}
+				for _, w := range *fa.Referrers() {
+					if st, ok := w.(*ssa.Store); ok && st.Addr == ssa.Value(fa) {
+						return ctxVal{ctx, st.Val}
+					}
+				}
+			}
+			// whole-struct store into the cell
+			if st := allocStores(al); len(st) == 1 {
+				sv = st[0]
+				continue
+			}
+			return ctxVal{}
+		default:
+			return ctxVal{}
+		}
+	}
+	return ctxVal{}
 }
 
 // stringArg returns the i-th argument of an invoke (receiver excluded).
